@@ -339,7 +339,7 @@ declaration of every source is exactly what it was.  Over whole histories: no so
 event type it does not declare, and no delivery ever starts for one. -/
 theorem undeclared_rejected :
     (∀ (m : M) (i et : Nat), MInv m → (m.srcs i).isDeclared et = false → ∀ (a : Action) (g : Bool),
-      (∃ hid prio once weak, a = .add et hid prio once weak) ∨ (∃ form noErr, form ≠ .junk true ∧ form ≠ .junk false ∧ a = .raise et form noErr) →
+      (∃ hid prio once weak, a = .add et hid prio once weak) ∨ (∃ form noErr, (form = .inst ∨ form = .cls) ∧ a = .raise et form noErr) →
       let m' := exec m ⟨i, a⟩ g
       (∃ r, m'.pend = some (r, g) ∧ (r = .exc .revent ∨ (r = .ok .none ∧ ∃ noErr, a = .raise et .cls noErr)) ∧
         ((∃ noErr, a = .raise et .inst noErr) ∨ (∃ hid prio once weak, a = .add et hid prio once weak) → r = .exc .revent)) ∧
@@ -362,7 +362,7 @@ theorem undeclared_rejected :
       intro j; unfold updSrc; split
       · rename_i hj; subst hj; exact ⟨rfl, rfl, rfl, rfl, rfl, rfl⟩
       · exact ⟨rfl, rfl, rfl, rfl, rfl, rfl⟩
-    rcases ha with ⟨hid, prio, once, weak, rfl⟩ | ⟨form, noErr, hj1, hj2, rfl⟩
+    rcases ha with ⟨hid, prio, once, weak, rfl⟩ | ⟨form, noErr, hform, rfl⟩
     · have hm' : m' = { m with srcs := setSrc m.srcs i (m.srcs i).touch, pend := some (.exc .revent, g) } := by
         simp [m', exec, doActionM, doAction, h]
       rw [hm']
@@ -374,21 +374,25 @@ theorem undeclared_rejected :
       · subst hj; simp [Src.touch]
       · simp [hj, Src.touch]; exact hi.sync i j
     · cases form with
-      | junk c => cases c <;> simp at hj1 hj2
+      | junk c => simp at hform
+      | again f0 => simp at hform
+      | fwd => simp at hform
       | inst =>
-        have hm' : m' = { m with nextFid := m.nextFid + 1, srcs := updSrc m.srcs i (m.srcs i).touch, pend := some (.exc .revent, g) } := by
+        have hm' : m' = { m with nextFid := m.nextFid + 1, srcs := updSrc m.srcs i (m.srcs i).touch,
+                                 evOf := fun k => if k = m.nextFid then some (m.nextFid, et) else m.evOf k,
+                                 pend := some (.exc .revent, g) } := by
           simp [m', exec, h]
         rw [hm']
         exact ⟨⟨_, rfl, .inl rfl, fun _ => rfl⟩, rfl, rfl, rfl, hupd⟩
       | cls =>
-        have hm' : ∃ r, (r = Res.exc .revent ∨ r = .ok .none) ∧
-            m' = { m with nextFid := m.nextFid + 1, srcs := updSrc m.srcs i (m.srcs i).touch, pend := some (r, g) } := by
+        have hm' : ∃ r evOf', (r = Res.exc .revent ∨ r = .ok .none) ∧
+            m' = { m with nextFid := m.nextFid + 1, srcs := updSrc m.srcs i (m.srcs i).touch, evOf := evOf', pend := some (r, g) } := by
           simp only [m', exec, h]
           split
-          · exact ⟨_, .inr rfl, rfl⟩
-          · exact ⟨_, .inr rfl, rfl⟩
-          · exact ⟨_, .inl rfl, by simp⟩
-        obtain ⟨r, hr, hm'⟩ := hm'
+          · exact ⟨_, m.evOf, .inr rfl, rfl⟩
+          · exact ⟨_, m.evOf, .inr rfl, rfl⟩
+          · exact ⟨_, (fun k => if k = m.nextFid then some (m.nextFid, et) else m.evOf k), .inl rfl, by simp⟩
+        obtain ⟨r, evOf', hr, hm'⟩ := hm'
         rw [hm']
         refine ⟨⟨r, rfl, ?_, ?_⟩, rfl, rfl, rfl, hupd⟩
         · rcases hr with rfl | rfl
@@ -642,12 +646,12 @@ def eG : Entry := ⟨0, 7, false, 6, none⟩
 
 /-- the state after 12 steps is reachable (so `MInv` holds) and its next step starts delivery 0 on source 0 over [C, A, B] -/
 example : MInv (w 12) := reachable_inv _ _ _ _ _
-example : (step wβ (w 12)).stack = ⟨0, 0, 0, false, true, [eC, eA, eB], [eC, eA, eB], false, none⟩ :: (step wβ (w 12)).stack.tail ∧
+example : (step wβ (w 12)).stack = ⟨0, 0, 0, false, true, [eC, eA, eB], [eC, eA, eB], 0, none⟩ :: (step wβ (w 12)).stack.tail ∧
     (step wβ (w 12)).stack.tail.length = (w 12).stack.length ∧ ((w 12).srcs 0).subscribers 0 = [eC, eA, eB] := by decide
 /-- step 20: A is running inside delivery 0 (`reentrant_safe`: a frame is on the stack) and its next action starts the
     nested delivery 1 on the *other* source, over [E, F, G] (`delivery_exact` for a cross-source nested raise) -/
 example : ∃ fr, fr ∈ (w 20).stack ∧ fr.fid = 0 ∧ (w 20).pend = none := ⟨_, List.mem_cons_self, rfl, rfl⟩
-example : (step wβ (w 20)).stack = ⟨1, 1, 0, false, true, [eE, eF, eG], [eE, eF, eG], false, none⟩ :: (step wβ (w 20)).stack.tail ∧
+example : (step wβ (w 20)).stack = ⟨1, 1, 0, false, true, [eE, eF, eG], [eE, eF, eG], 1, none⟩ :: (step wβ (w 20)).stack.tail ∧
     (step wβ (w 20)).stack.tail.length = (w 20).stack.length ∧ ((w 20).srcs 1).subscribers 0 = [eE, eF, eG] := by decide
 /-- … and at the end (step 40) delivery 0 has invoked exactly C, A, B although A subscribed D with a higher priority,
     removed C and re-raised in between; the nested delivery 2 (source 0 again) invoked D, A, B; delivery 1 on source 1
